@@ -187,7 +187,7 @@ def qcow2_spec(draw, tier="quick", layer=0, size_clusters=None, cluster_bits=Non
             rel = draw(st.sampled_from(["short", "short", "equal", "long", "tiny"]))
             blen = {"short": max(512, (size // 2 // 512) * 512 + draw(st.sampled_from([0, 512, 100]))), "equal": size, "long": size + 8192,
                     "tiny": 512}[rel]
-            spec["backing"] = {"name": name, "format": fmt, "length": blen}
+            spec["backing"] = {"name": name, "format": fmt, "length": blen, "nested_head": fmt != "qcow2" and draw(st.integers(0, 3)) == 0}
             spec["backing_mode"] = draw(st.sampled_from(["object", "object", "object", "allow_none"]))
             spec["backing_name_at_end"] = draw(st.sampled_from([False, False, True]))
             budget_bytes -= need + 16
